@@ -195,6 +195,9 @@ func TestProposalBudgets(t *testing.T) {
 				hist.Notes = append(hist.Notes, "known: "+f.sig+": "+f.detail)
 				if f.subject != nil {
 					f.subject.tainted = true
+				} else if strings.HasPrefix(f.sig, "C29:committee:CRCCommitteeUsedAmount") {
+					// the amounts agree again when the next committee recomputes it
+					m.usedTainted = true
 				} else {
 					// a committee-level known finding: nothing more to learn from this history
 					dead = "known committee-level finding"
